@@ -17,3 +17,6 @@ if [ -n "$VERIF_REPO" ] && [ "$VERIF_REPO" != "/repo" ]; then
 else
   go build -tags verif -o "$OUT" ./cmd/vcheck
 fi
+# the grol command itself (C09's command-line family runs it)
+case "$OUT" in /*) ABS="$OUT" ;; *) ABS="$PWD/$OUT" ;; esac
+(cd "${VERIF_REPO:-/repo}" && go build -o "$ABS.grol" .)
